@@ -117,6 +117,9 @@ var funcSpecs = []funcSpec{
 	{rel: "agessh", name: "(*Ed25519Recipient).Wrap", abstract: sshAbstract, opaque: sshOpaque, tape: true},
 	{rel: "agessh", name: "(*Ed25519Identity).unwrap", abstract: sshAbstract, opaque: sshOpaque},
 	{rel: "agessh", name: "(*Ed25519Identity).Unwrap", abstract: append([]string{"errors.Is"}, sshAbstract...), opaque: sshOpaque},
+	{rel: "agessh", name: "(*RSARecipient).Wrap", abstract: sshAbstract, opaque: sshOpaque, tape: true},
+	{rel: "agessh", name: "(*RSAIdentity).unwrap", abstract: sshAbstract, opaque: sshOpaque},
+	{rel: "agessh", name: "(*RSAIdentity).Unwrap", abstract: append([]string{"errors.Is"}, sshAbstract...), opaque: sshOpaque},
 	{rel: "", name: "ParseRecipients", abstract: []string{"age.ParseX25519Recipient"}, opaque: map[string]string{"Recipient": "κ", "X25519Recipient": "κ"}, errInts: true},
 }
 
@@ -126,7 +129,7 @@ var nativeOpaque = map[string]string{"io.Reader": "κ", "tapeτ": "τ"}
 
 // agessh: the primitives, the key's wire form and its fingerprint are abstract
 var sshAbstract = []string{"curve25519.X25519", "format.EncodeToString", "format.DecodeString", "agessh.aeadEncrypt", "agessh.aeadDecrypt", "agessh.sshFingerprint"}
-var sshOpaque = map[string]string{"io.Reader": "κ", "tapeτ": "τ", "ssh.PublicKey": "π"}
+var sshOpaque = map[string]string{"io.Reader": "κ", "tapeτ": "τ", "ssh.PublicKey": "π", "rsa.PublicKey": "β", "rsa.PrivateKey": "γ"}
 
 // internal/stream: the AEAD and the destination are abstract state, the source is a Go.Src
 var streamOpaque = map[string]string{"cipher.AEAD": "α", "io.Writer": "δ", "io.Reader": "Go.Src"}
@@ -1777,6 +1780,9 @@ func (c *fctx) threadedVars(call *ast.CallExpr) []*types.Var {
 		return nil
 	}
 	if c.tapeVar != nil && f.Pkg().Path() == "crypto/rand" && f.Name() == "Read" {
+		out = append(out, c.tapeVar)
+	}
+	if c.tapeVar != nil && f.Pkg().Path() == "crypto/rsa" && f.Name() == "EncryptOAEP" {
 		out = append(out, c.tapeVar)
 	}
 	if c.tapeVar != nil && f != c.fi.Obj && !c.isAbstract(f) {
